@@ -7,7 +7,7 @@ From CiwV Require Acc.C19.
 From CiwV Require Acc.C20.
 From CiwV.Engine Require Codec.
 From CiwV.Engine Require Codec2.
-From CiwV.Inv Require ConserveRun CapacityRun AllRun AllRun2.
+From CiwV.Inv Require ConserveRun CapacityRun AllRun AllRun2 Knot.
 Import ListNotations.
 Open Scope Z_scope.
 
@@ -42,6 +42,7 @@ Fixpoint upto (m : nat) : list nat := match m with O => [O] | S k => upto k ++ [
 
 Definition dispatch_model (name : Z) (s : sx) : sx :=
   match name with
+  | 39 => Knot.run_deadlockedb s   (* C18: does a (stage-1) snapshot contain a knot, and does it satisfy the hypotheses of deadlock_is_permanent? *)
   | 38 => AllRun2.run_invs2 s     (* every executable T2 invariant of the stage-2 engine on one snapshot *)
   | 37 => AllRun.run_jrn_real s   (* C03: journey invariant on a snapshot + the real cumulative records + arrival nodes *)
   | 36 => AllRun.run_invs s       (* every executable T2 invariant on one snapshot: L [wfx; cap; clk; ...] *)
